@@ -29,6 +29,8 @@ CHECKS = {
              note="trusted: get_successors transport and candid (stub future that suspends once); block decoding and insert_block are recorders (C10); upgrades while a request is in flight are outside; reply scripts are also run through the real heartbeat of the host build"),
  'C10': dict(text="symbolic execution of maybe_process_response + insert_block + ValidationContext::new + unstable_blocks::push (+ tree / cache / announced-header bookkeeping) on every tree up to 3/4 blocks and every response of up to 2/3 blocks (decodes?, parent among tree blocks / earlier response blocks / stable-only / unknown, re-send of an existing block, validator verdict): admitted iff new, connected, valid and all earlier ones admitted; exactly one error counter on the first failure, rest dropped, cache = tree, no trap; insert_next_block_headers on every 3-header script; the canister's HeaderStore implementation with symbolic stable height",
              note="trusted: validator verdicts are stubs (C11, C12 decide them), byte-level decoding, insert_outpoints (C20); real blocks (valid, duplicate, orphan, garbage, truncated, bad merkle root) are run through the real heartbeat natively"),
+ 'C08': dict(text="symbolic execution of UtxoSet::ingest_block / ingest_block_continue and everything below them, with every slicing-predicate call after the first of a round a nondeterministic choice (all pause-position sets of each block shape) and symbolic amounts: after every round the API-level readers (address UTXO sequence as get_utxos builds it, get_balance, get_utxo of address outputs, utxos_length) equal the pre-ingestion answers, resume positions increase, the final maps equal those of an unsliced run on the same path, ingestion finishes; heartbeat gating on Paused / Done(true)",
+             note="trusted: ledger model (struct-level stable maps, injective ids, scripts as address names); block shapes are a fixed list (4 quick / 8 thorough); the same shapes are run through the real canister with forced pauses; known finding F11 (utxos_length) is listed"),
 }
 NA = {
 }
